@@ -45,6 +45,11 @@ def peak_open(run, root, at=None):
                 continue
             fds[e["ret"]] = e["p1"]
             peak = max(peak, len(fds))
+        elif s in ("dup", "dup2", "dup3", "fcntl") and e["ret"] >= 0 and e["p1"].startswith(root) and e["a"][0] in fds:
+            # a duplicate of an open file is one more open descriptor (fcntl: F_DUPFD = 0, F_DUPFD_CLOEXEC = 1030)
+            if s != "fcntl" or e["a"][1] in (0, 1030):
+                fds[e["ret"]] = e["p1"]
+                peak = max(peak, len(fds))
         elif s == "close" and e["a"][0] in fds:
             del fds[e["a"][0]]
     return len(fds) if at is not None else peak
@@ -58,7 +63,8 @@ def run(ctx, out):
     out.rule = ("(a) supervised parblock runs with all W pool workers held at their first copy_file_range until the program is "
                 "quiescent: peak open file descriptors == 2 x open handles of the ConcBlock model (vm_compute of run_sched with "
                 "no job completing) for trees of 300 and 1500 one-block files and 3-block files, W in {1,2,4,16}; "
-                "(b) parfile peak <= 2W; (c) unsupervised runs of 3000-file trees (thorough: 30000) under RLIMIT_NOFILE=1024 "
+                "(b) parfile peak <= 2W (duplicated descriptors count), with --fsync every flush is held 40 ms by the supervisor, then also "
+                "parblock <= 2(128+W+1); (c) unsupervised runs of 3000-file trees (thorough: 30000) under RLIMIT_NOFILE=1024 "
                 "with 1..64 workers, both drivers, must exit 0 with a complete destination; non-trivial = all; distinct = config")
     configs = [(300, 1, 4), (1500, 1, 4), (300, 1, 1), (300, 1, 16), (400, 3, 2)]
     if not quick:
@@ -122,14 +128,32 @@ def run(ctx, out):
         os.makedirs(d)
         make_tree(os.path.join(d, "src"), 300, 100)
         argv = [ctx.bins["xcp"], "-r", "--driver", "parfile", "-w", str(w)] + extra + ["src", "dst"]
-        r = xcp.run_supervised(sup, argv, d, d, seed=w, hold_permille=100, hold_maxms=3, tag="p", timeout_ms=120000, nofile=1024)
+        # "workers slowed down relative to the dispatcher": with --fsync every flush is held for a while, so files complete
+        # faster than their flushes return
+        rules = [("hold", 40, 0, "fsync", 0, "*"), ("hold", 40, 0, "fdatasync", 0, "*")] if "--fsync" in extra else None
+        r = xcp.run_supervised(sup, argv, d, d, seed=w, hold_permille=100, hold_maxms=3, tag="p", timeout_ms=120000, nofile=1024,
+                               rules=rules)
         out.case(("parfile", w, tuple(extra)), True)
         out.count("parfile_runs")
         pk = peak_open(r, d)
         if r.exit != 0:
             out.violation("parfile run failed (exit %d): %s" % (r.exit, r.stderr[-200:]), dict(argv=argv[1:]))
         elif pk > 2 * w:
-            out.violation("parfile with %d workers had %d file descriptors open at once (> 2W)" % (w, pk), dict(argv=argv[1:]))
+            out.violation("parfile with %d workers had %d file descriptors open at once (> 2W)" % (w, pk), dict(argv=argv[1:], rules=rules))
+        if rules:
+            # the same with the block driver: slow flushes must not let descriptors pile up beyond the queue bound
+            shutil.rmtree(os.path.join(d, "dst"), ignore_errors=True)
+            argv = [ctx.bins["xcp"], "-r", "--driver", "parblock", "-w", str(w)] + extra + ["src", "dst"]
+            r = xcp.run_supervised(sup, argv, d, d, seed=w, hold_permille=100, hold_maxms=3, tag="q", timeout_ms=120000, nofile=1024,
+                                   rules=rules)
+            out.case(("parblock-slow-fsync", w, tuple(extra)), True)
+            out.count("parblock_slow_fsync_runs")
+            pk = peak_open(r, d)
+            if r.exit != 0:
+                out.violation("parblock run failed (exit %d): %s" % (r.exit, r.stderr[-200:]), dict(argv=argv[1:]))
+            elif pk > 2 * (Q + w + 1):
+                out.violation("parblock with %d workers and slow fsync had %d file descriptors open at once (> 2*(128+W+1))" % (w, pk),
+                              dict(argv=argv[1:], rules=rules))
         shutil.rmtree(d, ignore_errors=True)
     # (c) unsupervised under the default limit
     big = 3000 if quick else 30000
